@@ -67,7 +67,19 @@ pub enum History {
     ExtraRemoved,
     /// files are added in reverse order
     Reversed,
+    /// extra ids first hold contents registering popular keys and are then replaced by content
+    /// without a tree (which stays in the project and registers nothing)
+    ExtraBroken,
 }
+
+const DECOYS: [&str; 6] = [
+    "package a.b; parcelable Foo { }",
+    "package c; enum Foo { A }",
+    "package a.b; interface XFoo { }",
+    "package t; enum Par { A }",
+    "package d; interface Used { }",
+    "package p; interface Tgt { }",
+];
 
 pub fn history_ops(files: &[ProjFile], h: History) -> Value {
     let mut ops: Vec<Value> = Vec::new();
@@ -104,6 +116,18 @@ pub fn history_ops(files: &[ProjFile], h: History) -> Value {
             ops.push(json!(["validate"]));
             for f in files {
                 ops.push(json!(["add", f.id, f.text]));
+            }
+        }
+        History::ExtraBroken => {
+            for (k, d) in DECOYS.iter().enumerate() {
+                ops.push(json!(["add", format!("zz-broken-{k}"), d]));
+            }
+            for f in files {
+                ops.push(json!(["add", f.id, f.text]));
+            }
+            ops.push(json!(["validate"]));
+            for (k, _) in DECOYS.iter().enumerate() {
+                ops.push(json!(["add", format!("zz-broken-{k}"), if k % 2 == 0 { "this is not AIDL" } else { "package zz; parcelable Broken {" }]));
             }
         }
         History::ExtraRemoved => {
